@@ -718,6 +718,7 @@ package jsonrpc
 //@ func ExtractReverseClient
 //@   modifies nothing
 //@   at call (context.Context).Value: assert looks-up-in-the-handlers-context: $0 == ctx [C16]
+//@   ensures present-only-when-a-non-nil-proxy-is-stored-under-the-key: result1 == (ok && c != nil) [C16]
 
 //@ func makeHandler
 //@   modifies nothing
